@@ -25,6 +25,10 @@ def swap_handler(taken):
                 for s in st.orelse:
                     ex.stmt(s)
             return True
+        # the swap decision kept in a flag first: `ab_swapped = l_one < l_two; if ab_swapped: ...`
+        if isinstance(st.test, ast.Name) and isinstance(ex.env.get(st.test.id), SV) and not ex.env[st.test.id].labels \
+                and ex.env[st.test.id].e.has(sp.Function("Indicator")):
+            ex.env[st.test.id] = taken
         # `if ab_swapped: return transpose` - evaluated from the flag bound in the swap block
         if isinstance(st.test, ast.Name) and st.test.id in ex.env and isinstance(ex.env[st.test.id], bool):
             for s in (st.body if ex.env[st.test.id] else st.orelse):
